@@ -29,6 +29,8 @@ def monitor(c):
 
 
 def run(ctx, out):
+    import families as _famsm
+    out.evaluations += _famsm.struct_mapping_family(out, PROP)
     import families as _fam
     out.evaluations += _fam.construction_paths_family(out, PROP)
     out.rule = ('grammar-directed types (depth <= 3 quick / 4 thorough) x values from three streams (valid from the type / one or two '
